@@ -855,7 +855,9 @@ class HeapWalker(FuncWalker):
         if nm in MUTATING_METHODS:
             self.write(recv, 'item', '', e)
             vals = set()
-            for a in e.args:
+            # keys / positions are not stored values: d.setdefault(key, default), d.pop(key[, default]), l.insert(pos, value)
+            stored_args = e.args[1:] if nm in ('setdefault', 'pop', 'insert') else e.args
+            for a in stored_args:
                 if not isinstance(a, ast.Starred):
                     vals |= self.pt(a, st)
             if nm in ('update', 'extend'):
@@ -863,7 +865,7 @@ class HeapWalker(FuncWalker):
             if vals:
                 self.store_field(st, recv, '*', frozenset(vals), strong=False)
             if nm in ('pop', 'popitem', 'setdefault'):
-                return self.elems(recv, st)
+                return self.elems(recv, st) | frozenset(vals)
             return NO
         if nm in VIEW_FUNCS or nm in ('reshape', 'ravel', 'squeeze', 'transpose', 'swapaxes', 'view'):
             return recv
